@@ -302,17 +302,20 @@ def dynamic_names(F, reg):
 
 def helper_panic_rule(F, R, rid):
     R.rule(rid, "a JIT runtime helper never turns a script-level error into a host panic: in every helper the translator can "
-                "emit (and the jit-module functions it calls, ≤ 2 levels), the Err outcome of a value-level operation (a function "
+                "emit (and the jit-module functions it calls, ≤ 3 levels), the Err outcome of a value-level operation (a function "
                 "of SteelVal arguments only that returns Result<SteelVal, SteelErr>: a native primitive — type error, "
-                "division by zero, index out of range) is not "
+                "division by zero, index out of range — or a VmCore method returning Result<_, SteelErr>, e.g. installing a "
+                "callee's frame, which raises the arity and stack-overflow errors) is not "
                 "unwrapped/expected, and the non-Ok side of a test of that Result does not lead to a panic "
                 "(unreachable!/panic!/assert)")
     reg = registry(F)
-    em = emitted_names(F, reg)
-    R.floor(rid, "emittable JIT helpers", len(em), 60)
+    # every helper registered in the JIT's symbol table can be called from generated code (the names emitted through the
+    # per-arity name families are computed at translation time), so all of them are checked
+    em = set(reg)
+    R.floor(rid, "registered JIT helpers", len(em), 150)
     n = 0
     for name in sorted(em):
-        fam = helper_family(F, reg[name], 2)
+        fam = helper_family(F, reg[name], 3)
         bad = []
         for fname in sorted(fam):
             fn = F.fns.get(fname)
@@ -327,6 +330,10 @@ def helper_panic_rule(F, R, rid):
                 value_level = bool(ins) and all(re.match(r"^&?(mut )?\[?SteelVal\]?$", x) for x in ins)
                 if d and out.startswith("Result<SteelVal") and b["callee"].startswith("steel::") and value_level and \
                         not re.search(r"into_steelval$|IntoSteelVal", b["callee"]):
+                    prods[d.group(0)] = (i, b)
+                # interpreter operations that fail on script errors (installing a callee's frame raises the arity and the
+                # stack-overflow errors): any VmCore method returning Result<_, SteelErr>
+                elif d and out.startswith("Result<") and "SteelErr" in out and re.search(r"\{impl VmCore\}::", b["callee"]):
                     prods[d.group(0)] = (i, b)
             if not prods:
                 continue
